@@ -201,7 +201,8 @@
         (let lp ((offset 0))
           (let ((src-len
                  (+ offset
-                    (read-bytevector! src in offset decode-src-length))))
+                    (let ((n (read-bytevector! src in offset decode-src-length)))
+                      (if (eof-object? n) 0 n)))))
             (cond
              ((= src-len decode-src-length)
               ;; read a full chunk: decode, write and loop
@@ -326,10 +327,13 @@
             (dst (make-bytevector
                   (arithmetic-shift (quotient encode-src-length 3) 2))))
         (let lp ()
-          (let ((n (read-bytevector! src in 0 2048)))
+          ;; read whole multiples of 3 bytes so that padding can only
+          ;; appear at the very end
+          (let* ((n (read-bytevector! src in 0 encode-src-length))
+                 (n (if (eof-object? n) 0 n)))
             (base64-encode-bytevector! src 0 n dst)
             (write-bytevector dst out 0 (* 4 (quotient (+ n 2) 3)))
-            (if (= n 2048)
+            (if (= n encode-src-length)
                 (lp)
                 (flush-output-port out)))))))))
 
